@@ -1412,11 +1412,6 @@ class H2Connection:
         if acknowledged_size < 0:
             raise ValueError("Cannot acknowledge negative data")
 
-        # Nothing but GOAWAY may be sent on a closed connection, and nobody is
-        # left to use the window anyway.
-        if self.state_machine.state == ConnectionState.CLOSED:
-            return
-
         frames = []
 
         # Look the stream up first: for a stream that never existed this
@@ -1427,6 +1422,11 @@ class H2Connection:
             # The stream is already gone. We're not worried about incrementing
             # the window in this case.
             stream = None
+
+        # Nothing but GOAWAY may be sent on a closed connection, and nobody is
+        # left to use the window anyway.
+        if self.state_machine.state == ConnectionState.CLOSED:
+            return
 
         conn_manager = self._inbound_flow_control_window_manager
         conn_increment = conn_manager.process_bytes(acknowledged_size)
